@@ -19,7 +19,7 @@ IDSETS = [None, {0: 11, 1: 5, 2: 40, 3: 1, 4: 999, 5: 2, 6: 77, 7: 8}]
 BOUNDS = {"quick": "templates star4 (Tet all 24 orderings x parity, SP), lonepair, star5 (TBP, strided), star6 (Oct, strided), dbond (PlanarBond); 2 identifier sets "
                    "(0-based and {11,5,40,1,999,2,..}); 3 atom insertion orders",
           "thorough": "all orderings of TBP, 144 of Oct; 6 insertion orders"}
-OUTSIDE = "molecules with several interacting stereo units; RDKit sanitisation of larger molecules; identifiers <= 0 (atom-map numbers must be positive)"
+OUTSIDE = "molecules with several stereo units other than the listed pairs of directly bonded centres; RDKit sanitisation of larger molecules; identifiers <= 0 (atom-map numbers must be positive)"
 ASSUMPTIONS = ["identifiers are positive (RDKit atom-map numbers; the importer rejects 0)"]
 
 
@@ -72,8 +72,45 @@ def template(t, cls, idset, ins, **sel):
     return _roundtrip(spec, IDSETS[idset], ins, bond_orders=(name == "dbond"))
 
 
+COMPLEX_IDSETS = [None, {0: 11, 1: 5, 2: 40, 3: 1, 4: 999, 5: 2, 6: 77, 7: 8, 8: 3, 9: 120, 10: 7, 11: 64, 12: 13, 13: 21}]
+COMPLEX_KINDS = ["Oct+Tet", "Oct+Oct", "TBP+Tet", "SP+Tet", "Oct+TBP"]
+
+
+def _complex_spec(kind, oc, pc, pl):
+    """two bonded stereocentres: a coordination centre 0 (ligands 1..k; ligand 1 is the second centre) and centre 1 with its own ligands"""
+    a, b = COMPLEX_KINDS[kind].split("+")
+    ka, kb = oracle.ARITY[a] - 1, oracle.ARITY[b] - 1
+    lig_els = ["F", "Cl", "Br", "I", "N", "O"]
+    s = gl.empty_spec("SMG")
+    s["atoms"] = [(0, "Co" if a != "SP" else "Pt", {}), (1, "P" if b == "Tet" else "Rh", {})]
+    s["bonds"] = [(0, 1, None, {})]
+    for i in range(2, ka + 1):
+        s["atoms"].append((i, lig_els[i - 2], {}))
+        s["bonds"].append((0, i, None, {}))
+    second = list(range(ka + 1, ka + kb))
+    for j, i in enumerate(second):
+        s["atoms"].append((i, ["H", "F", "Cl", "Br", "I"][j], {}))
+        s["bonds"].append((1, i, None, {}))
+    la = list(range(1, ka + 1))
+    random.Random(oc * 131 + kind).shuffle(la)
+    lb = [0] + second
+    random.Random(oc * 17 + kind + 5).shuffle(lb)
+    par = lambda k, q: (0 if not oracle.CHIRAL[k] else (1 if q == 0 else -1))  # noqa: E731
+    s["astereo"] = [(a, (0, *la), par(a, pc)), (b, (1, *lb), par(b, pl))]
+    return s
+
+
+def complex2(kind, oc, pc, pl, idset, ins):
+    """two directly bonded stereocentres (an octahedral / TBP / square planar centre whose ligand is itself a tetrahedral, TBP or octahedral centre)"""
+    return _roundtrip(_complex_spec(kind, oc, pc, pl), COMPLEX_IDSETS[idset], ins)
+
+
 def plan(tier, seed):
     units = []
+    units.append(Sel(name="two_bonded_centres", func="vp.props.C13:complex2",
+                     params={"kind": (0, len(COMPLEX_KINDS)), "oc": (0, 6 if tier == "quick" else 24), "pc": (0, 2), "pl": (0, 2), "idset": (0, 2),
+                             "ins": (0, 6 if tier == "quick" else 16)},
+                     pre=["pc == 0 or kind != 3"], shard_by=[], timeout=1500, nontrivial="ins > 0", min_shard=16))
     names = ["star4", "lonepair", "dbond", "star5", "star6"]
     for (n, c, p, pr) in eqfam.template_units(names, classes=("SMG",)):
         params = {"t": (C01.TNAMES.index(n), C01.TNAMES.index(n) + 1), "cls": (1, 2), "idset": (0, 2), "ins": (0, 3 if tier == "quick" else 6)}
